@@ -965,7 +965,7 @@ pub fn minimise(inp: &str, outp: &str) -> i32 {
             };
             streamsim::silence_panics();
             let big = sc.stream.len() > 20_000;
-            let (m, used) = streammin::minimise(&sc, &rf.class, if big { 400 } else { 5000 });
+            let (m, used) = streammin::minimise(&sc, &rf.class, if big { 120 } else { 5000 });
             let v = streamsim::exec(&m, true);
             if let Some(x) = &v.violation {
                 rf.detail = x.detail.clone();
